@@ -37,7 +37,7 @@ TraceInit ==
 
 E == Rec[l]
 Consume == l' = l + 1
-Keep == UNCHANGED <<tree, backend, natk, nsteps, acc>>
+Keep == UNCHANGED <<tree, natk, nsteps, acc>>
 
 \* tree mutations of the attacker (same replay as TraceFS)
 ApplyAtt(f, e) ==
@@ -51,53 +51,67 @@ ApplyAtt(f, e) ==
 T_Init ==
     /\ l <= Len(Rec) /\ E.ev = "init" /\ Consume
     /\ fs' = FsOf(E) /\ pc' = "idle" /\ everIn' = InRootSet(FsOf(E))
-    /\ UNCHANGED <<path, op, cur, exp, rem, ntrav, nxt, part, rootPath, retries, res>> /\ Keep
+    /\ UNCHANGED <<path, op, cur, exp, rem, ntrav, nxt, part, rootPath, retries, res, backend>> /\ Keep
 T_Begin ==
     /\ l <= Len(Rec) /\ E.ev = "begin" /\ pc = "idle" /\ Consume
     /\ path' = E.body /\ op' = [op |-> E.op, nofollow |-> E.flag = "nofollow", nosym |-> E.n2 = "nosym", acc |-> E.kind, odir |-> E.inj]
     /\ pc' = "start" /\ cur' = R /\ exp' = <<>> /\ rem' = <<>> /\ ntrav' = 0 /\ nxt' = 0 /\ part' = "" /\ rootPath' = <<>> /\ res' = NoRes
-    /\ UNCHANGED <<fs, retries, everIn>> /\ Keep
+    /\ backend' = (IF E.d2 = 1 THEN "kernel" ELSE "emulated") /\ retries' = 0
+    /\ UNCHANGED <<fs, everIn>> /\ Keep
 T_Att ==
     /\ l <= Len(Rec) /\ E.ev = "att" /\ Consume
     /\ fs' = IF E.ret = 0 THEN ApplyAtt(fs, E) ELSE fs
     /\ everIn' = everIn \cup InRootSet(fs')
-    /\ UNCHANGED <<path, op, pc, cur, exp, rem, ntrav, nxt, part, rootPath, retries, res>> /\ Keep
+    /\ UNCHANGED <<path, op, pc, cur, exp, rem, ntrav, nxt, part, rootPath, retries, res, backend>> /\ Keep
 \* silent model steps
 Silent ==
     /\ (E_Start \/ E_Classify \/ E_Budget \/ E_Done)
     /\ UNCHANGED <<fs, tree, path, op, backend, natk, nsteps, everIn, l, acc>>
+\* kernel backend: one openat2 per attempt with the caller's path; EAGAIN (a racing rename, or injected) is
+\* retried, the KRetry-th EAGAIN in a row ends the call with a safety violation
+T_KOpen ==
+    /\ l <= Len(Rec) /\ E.ev = "sys" /\ E.nr = "openat2" /\ pc = "start" /\ backend = "kernel" /\ Consume
+    /\ E.body = path
+    /\ IF E.flag = "EAGAIN"
+       THEN /\ retries' = retries + 1
+            /\ IF retries + 1 >= KRetry THEN Finish(Safety) ELSE UNCHANGED <<pc, res>>
+       ELSE /\ LET r == IF op.op = "open" THEN KAnswer(fs) ELSE KResolve(fs, R, path, KFlags, KMaxLinks) IN
+                 IF E.ret >= 0 THEN r.ok /\ r.ino = E.rid ELSE ~r.ok /\ r.err = E.flag
+            /\ Finish(KAnswer(fs)) /\ UNCHANGED retries
+    /\ cur' = (IF E.ret >= 0 THEN E.rid ELSE cur)
+    /\ UNCHANGED <<fs, path, op, exp, rem, ntrav, nxt, part, rootPath, everIn, backend>> /\ Keep
 T_Open ==
     /\ l <= Len(Rec) /\ E.ev = "sys" /\ E.nr = "openat" /\ pc = "open" /\ Consume
     /\ E.d1 = cur /\ E.n1 = part
     /\ E_OpenNext
     /\ IF E.ret < 0 THEN pc' = "done" ELSE nxt' = E.rid
-    /\ UNCHANGED <<fs, path, op, everIn>> /\ Keep
+    /\ UNCHANGED <<fs, path, op, everIn, backend>> /\ Keep
 T_Stat ==
     /\ l <= Len(Rec) /\ E.ev = "sys" /\ E.nr = "fstat" /\ pc = "stat" /\ E.d1 = nxt /\ Consume
     /\ E_Stat
-    /\ UNCHANGED <<fs, path, op, everIn>> /\ Keep
+    /\ UNCHANGED <<fs, path, op, everIn, backend>> /\ Keep
 \* may_follow_link(dir, link): fstat of the directory and of the link (trailing links only)
 T_MayFollow ==
     /\ l <= Len(Rec) /\ E.ev = "sys" /\ E.nr = "fstat" /\ pc = "mayfollow" /\ E.d1 \in {cur, nxt} /\ rem = <<>> /\ Consume
-    /\ UNCHANGED <<fs, path, op, pc, cur, exp, rem, ntrav, nxt, part, rootPath, retries, res, everIn>> /\ Keep
+    /\ UNCHANGED <<fs, path, op, pc, cur, exp, rem, ntrav, nxt, part, rootPath, retries, res, everIn, backend>> /\ Keep
 T_Readlink ==
     /\ l <= Len(Rec) /\ E.ev = "sys" /\ E.nr = "readlink" /\ pc = "readlink" /\ E.d1 = nxt /\ E.body = fs.body[nxt] /\ Consume
     /\ E_Readlink
-    /\ UNCHANGED <<fs, path, op, everIn>> /\ Keep
+    /\ UNCHANGED <<fs, path, op, everIn, backend>> /\ Keep
 T_DPath ==
     /\ l <= Len(Rec) /\ E.ev = "sys" /\ E.nr = "dpath" /\ Consume
     /\ \/ pc \in {"dd1", "dd3", "fin1", "fin3"} /\ E.body = DPath(fs, R)
        \/ pc = "dd2" /\ E.body = DPath(fs, nxt)
        \/ pc = "fin2" /\ E.body = DPath(fs, cur)
     /\ (E_DD1 \/ E_DD2 \/ E_DD3 \/ E_Fin1 \/ E_Fin2 \/ E_Fin3)
-    /\ UNCHANGED <<fs, path, op, everIn>> /\ Keep
+    /\ UNCHANGED <<fs, path, op, everIn, backend>> /\ Keep
 \* after the walk: readlinkat(handle, "") of Root::readlink, and the d_path / fstat reads of the reopen through the
 \* fd magic-link of open_subpath -- they address the inode the walk returned (PostResolve is one atomic step of the model)
 T_Post ==
     /\ l <= Len(Rec) /\ E.ev = "sys" /\ pc = "done" /\ Consume
     /\ \/ op.op = "readlink" /\ E.nr = "readlink" /\ E.d1 = cur
        \/ op.op = "open" /\ E.nr \in {"dpath", "fstat"}
-    /\ UNCHANGED <<fs, path, op, pc, cur, exp, rem, ntrav, nxt, part, rootPath, retries, res, everIn>> /\ Keep
+    /\ UNCHANGED <<fs, path, op, pc, cur, exp, rem, ntrav, nxt, part, rootPath, retries, res, everIn, backend>> /\ Keep
 T_End ==
     /\ l <= Len(Rec) /\ E.ev = "end" /\ pc = "done" /\ Consume
     /\ (E.ret = 0) = res.ok
@@ -105,13 +119,13 @@ T_End ==
     /\ ((res.ok /\ op.op = "readlink") => res.body = E.body)
     /\ (~res.ok /\ E.flag # "" => res.err = E.flag)
     /\ pc' = "idle"
-    /\ UNCHANGED <<fs, path, op, cur, exp, rem, ntrav, nxt, part, rootPath, retries, res, everIn>> /\ Keep
+    /\ UNCHANGED <<fs, path, op, cur, exp, rem, ntrav, nxt, part, rootPath, retries, res, everIn, backend>> /\ Keep
 \* events of other calls / snapshots
 T_Skip ==
     /\ l <= Len(Rec) /\ E.ev \in {"snap"} /\ pc = "idle" /\ Consume
     /\ UNCHANGED vars /\ UNCHANGED acc
 
-TraceNext == T_Init \/ T_Begin \/ T_Att \/ Silent \/ T_Open \/ T_Stat \/ T_MayFollow \/ T_Readlink \/ T_DPath \/ T_Post \/ T_End \/ T_Skip
+TraceNext == T_Init \/ T_Begin \/ T_Att \/ Silent \/ T_KOpen \/ T_Open \/ T_Stat \/ T_MayFollow \/ T_Readlink \/ T_DPath \/ T_Post \/ T_End \/ T_Skip
 TraceSpec == TraceInit /\ [][TraceNext]_tvars
 
 Progress == TLCSet(1, IF TLCGet(1) > l THEN TLCGet(1) ELSE l)
